@@ -352,8 +352,8 @@ func (p *parser) readType() *Type {
 func (p *parser) readAlias(idl *IDL) (*Alias, error) {
 	a := &Alias{}
 
-	p.advance()
 	a.Doc = p.lastComment.String()
+	p.advance()
 	a.Name = p.readTypeName()
 	if a.Name == "" {
 		return nil, fmt.Errorf("missing type name")
@@ -371,8 +371,8 @@ func (p *parser) readAlias(idl *IDL) (*Alias, error) {
 func (p *parser) readMethod(idl *IDL) (*Method, error) {
 	m := &Method{}
 
-	p.advance()
 	m.Doc = p.lastComment.String()
+	p.advance()
 	m.Name = p.readTypeName()
 	if m.Name == "" {
 		return nil, fmt.Errorf("missing method type")
@@ -403,8 +403,8 @@ func (p *parser) readMethod(idl *IDL) (*Method, error) {
 func (p *parser) readError(idl *IDL) (*Error, error) {
 	e := &Error{}
 
-	p.advance()
 	e.Doc = p.lastComment.String()
+	p.advance()
 	e.Name = p.readTypeName()
 	if e.Name == "" {
 		return nil, fmt.Errorf("missing error name")
@@ -432,8 +432,8 @@ func (p *parser) readIDL() (*IDL, error) {
 		Errors:  make([]*Error, 0),
 	}
 
-	p.advance()
 	idl.Doc = p.lastComment.String()
+	p.advance()
 	idl.Name = p.readInterfaceName()
 	if idl.Name == "" {
 		return nil, fmt.Errorf("interface name")
